@@ -207,7 +207,7 @@ impl Elf {
             };
 
             let name = &elf.dynstrtab[sym.st_name];
-            symbols.push(Symbol::new(name, rel.r_offset));
+            symbols.push(Symbol::new(name, rel.r_offset + self.base_address()));
         }
 
         symbols.sort();
